@@ -182,7 +182,8 @@ func genVal(r *Rng) []byte {
 	}
 }
 
-// distinct keys, sorted (canonical) unless told otherwise
+// distinct keys; canonical (sorted) two times out of three, otherwise in arbitrary wire order:
+// a mapping read from the wire need not be sorted
 func genKVs(r *Rng, maxPairs int) []KV {
 	n := r.Intn(maxPairs + 1)
 	seen := map[string]bool{}
@@ -194,6 +195,9 @@ func genKVs(r *Rng, maxPairs int) []KV {
 		}
 		seen[string(k)] = true
 		kvs = append(kvs, KV{k, genVal(r)})
+	}
+	if r.Intn(3) == 0 {
+		return kvs
 	}
 	return sortKVs(kvs)
 }
